@@ -4,6 +4,11 @@
 import Gojq.Proofs.RoundTripAll
 import Gojq.Proofs.RoundTripLexItems
 import Gojq.Proofs.SpacedAll
+import Gojq.Proofs.SpacedProgram
+import Gojq.Proofs.RoundTripProgram
+import Gojq.Proofs.RoundTripLexGaps
+import Gojq.Proofs.RoundTripImage
+import Gojq.Proofs.RoundTripImage6
 namespace Gojq.RefTerm
 open Gojq
 
@@ -19,5 +24,21 @@ theorem roundtrip_ref (q : Query) (hp : Printable q = true) (hs : Spaced q = tru
 theorem roundtrip_printable (q : Query) (hp : Printable q = true) :
     ∃ F, ∀ f, F ≤ f → refParseQ f (tokensOf (printQ q)) = some q :=
   roundtrip_ref q hp (spaced_of_printable q hp)
+
+/-- PRINT, LEX, PARSE for whole programs (module header, imports with metadata, then function
+    definitions only or a query) -/
+theorem roundtrip_program (p : Program) (hp : PrintableProgram p = true) :
+    ∃ F, ∀ f, F ≤ f → refParseF f (printProgram p) = some p := by
+  unfold refParseF printProgram
+  rw [tokensOf_render _ (spaced_program p hp)]
+  exact pProgram_items p hp
+
+/-- FOR EVERY SOURCE THE REFERENCE PARSER ACCEPTS (whose tokens are well-formed, which is decidable
+    and holds of everything the lexer delivers on the streams): print the AST, lex, parse — the
+    same AST -/
+theorem roundtrip_of_accepted (src : Bytes) (f : Nat) (q : Query) (hg : goodB (tokensOf src) = true)
+    (h : refParseQ f (tokensOf src) = some q) :
+    ∃ F, ∀ f', F ≤ f' → refParseQ f' (tokensOf (printQ q)) = some q :=
+  roundtrip_printable q (refParse_printable f _ q (good_of_goodB _ hg) h)
 
 end Gojq.RefTerm
